@@ -490,7 +490,7 @@ class Array(metaclass=MetaArray):
                 # items are stored in the memory order of the array class
                 value = value.transpose(tuple(info.order))
             buffer.update_from_nplike(coffset, cls._itemtype._dtype, value)
-        elif isinstance(value, cls):
+        elif isinstance(value, cls) and not cls._has_refs:
             if value._size == info.size:
                 buffer.update_from_xbuffer(
                     offset, value._buffer, value._offset, value._size
